@@ -7,7 +7,8 @@ for d in seeded/*/; do
   id=$(basename "$d"); prop=${id%%-*}
   # a change may be a violation of another property than the one it was written for (meta.json says so)
   cp=$(python3 -c "import json,sys; print(json.load(open('$d/meta.json')).get('check_property',''))" 2>/dev/null); [ -n "$cp" ] && prop=$cp
-  r=$(selftest/run_mutant.sh "$prop" "$d/patch.diff" "$B" 2>&1 | grep '^RESULT')
+  b=$B; [ "$prop" = C04 ] && b=   # C04's enumerations must complete: no budget override
+  r=$(selftest/run_mutant.sh "$prop" "$d/patch.diff" $b 2>&1 | grep '^RESULT')
   echo "$id: $(echo "$r" | sed 's/^RESULT [^ ]* [^ ]* //' | cut -c1-200)"
   echo "$r" | grep -q CAUGHT || fail=1
 done
